@@ -81,6 +81,16 @@ def atom_oracle(ex, p, d, literals, binds):
     if b.variant == "Vector":
         isv, seq = vec_of(ex, d)
         subs = [b.fields[0].items[i].v for i in range(b.fields[0].ln)]
+        if subs and subs[-1].fields[0].variant == "Ellipsis":
+            # #(p1 .. pk r ...): the first k data match p1..pk, one or more further data all match r
+            fixed, rep = subs[:-2], subs[-2]
+            n = skel.seq_len_term(seq)
+            conds = [isv, n >= len(fixed) + 1]
+            for i, sp in enumerate(fixed):
+                conds.append(atom_oracle(ex, sp, ex.seq_item(seq, i).v, literals, binds) if i < seq.max else z3.BoolVal(False))
+            for j in range(len(fixed), seq.max):
+                conds.append(z3.Implies(n > j, atom_oracle(ex, rep, ex.seq_item(seq, j).v, literals, {})))
+            return z3.And(*conds)
         conds = [isv, skel.seq_len_term(seq) == len(subs)]
         for i, sp in enumerate(subs):
             if i < seq.max:
@@ -105,6 +115,14 @@ MACRO_PROBES = [
     ("(define-syntax m (syntax-rules () ((m a) 'one)))\n(m 1 2)", ["OK -", "ERR Syntax"]),
     ("(define-syntax m (syntax-rules () ((m a ...) '(many a ...)) ((m a b) '(two a b))))\n(m 1 2)", ["OK -", "OK L 3 Y 6d616e79 I 1 I 2"]),
     ("(define-syntax m (syntax-rules () ((m a b) '(two a b)) ((m a ...) '(many a ...))))\n(vector (m 1 2) (m 1))", ["OK -", "OK VM 2 L 3 Y 74776f I 1 I 2 L 2 Y 6d616e79 I 1"]),
+    # a pattern variable matches ANY form, also a symbol spelled like one of the macro's literals
+    ("(define-syntax sel (syntax-rules (to) ((sel a b) '(pair a b)) ((sel a b c) 'wild)))\n(sel 1 to)", ["OK -", "OK L 3 Y 70616972 I 1 Y 746f"]),
+    # an ellipsis inside a vector pattern: runs of one, two and three items
+    ("(define-syntax vh (syntax-rules () ((vh #(h r ...)) '(vec h (r ...))) ((vh x) '(not-a-vector x))))\n(vector (vh #(1 2)) (vh #(1 2 3)) (vh #(1 2 3 4)))",
+     ["OK -", "OK VM 3 L 3 Y 766563 I 1 L 1 I 2 L 3 Y 766563 I 1 L 2 I 2 I 3 L 3 Y 766563 I 1 L 3 I 2 I 3 I 4"]),
+    # operands that are themselves macro uses reach the rules as written (expansion is outside-in)
+    ("(define-syntax kind (syntax-rules () ((kind (a b)) '(pair a b)) ((kind x) '(other x))))\n(kind (or 1))", ["OK -", "OK L 3 Y 70616972 Y 6f72 I 1"]),
+    ("(define-syntax m (syntax-rules () ((m (m a) b) '(nested a b)) ((m a b) '(two a b)) ((m a) '(one a))))\n(m (m 1) 2)", ["OK -", "OK L 3 Y 6e6573746564 I 1 I 2"]),
     # bindings of a rule that failed must not leak into the rule that matches
     ("(define-syntax m (syntax-rules () ((m x) 'first) ((m a b) '(x a b))))\n(m 1 2)", ["OK -", "OK L 3 Y 78 I 1 I 2"]),
     # literal identifiers match only themselves; literal data only equal data
@@ -401,7 +419,8 @@ def spec_match_kinds(chk):
     nat = chk.ws.runner("dev")
     replay = lambda vals: macro_probe(nat)
     cases = [("_", P("_"), []), ("x", P("id", "x"), []), ("else[literal]", P("id", "else"), ["else"]), ("else[literal among several]", P("id", "else"), ["=>", "else", "to"]), ("1", P("int", 1), []),
-             ("#(a b)", P("vec", [P("id", "a"), P("id", "b")]), []), ("#()", P("vec", []), [])]
+             ("#(a b)", P("vec", [P("id", "a"), P("id", "b")]), []), ("#()", P("vec", []), []),
+             ("#(h r ...)", P("vec", [P("id", "h"), P("id", "r"), P("...")]), []), ("#(r ...)", P("vec", [P("id", "r"), P("...")]), [])]
     for label, pat, lits in cases:
         ex = chk.executor(True)
         ex.seq_max = 2
